@@ -64,6 +64,7 @@ type sys struct {
 	pretty       bool
 	spaced          bool // a blank after every comma
 	otherUnit       bool // a linear unit other than metre / foot / US survey foot
+	nestedAngUnit   bool // the nested GEOGCS declares grad / radian / arc-second
 	nestedAuthority bool // GDAL style: AUTHORITY nodes on the nested objects (GEOGCS = EPSG:4326)
 	oddNames     bool // a WKT name other than the usual ESRI-style one (short, empty, bare prefix, blanks, non-ASCII)
 }
@@ -165,7 +166,16 @@ func genSys(r *crsgen.R) *sys {
 				ps[i], ps[j] = ps[j], ps[i]
 			}
 		}
-		parts := []string{geog}
+		nested := geog
+		if !s.nestedAuthority && r.Chance(0.12) {
+			// the geographic system nested in the projected one declares another angular unit (grad,
+			// radian, ...): the PARAMETER values of the projected system are in degrees all the same
+			// (the property: "angular ones in degrees"), as in the PROJ.4 spelling
+			u := [][2]string{{"grad", "0.015707963267948967"}, {"Radian", "1.0"}, {"gon", "0.015707963267948967"}, {"arc-second", "4.84813681109536E-06"}}[r.Intn(4)]
+			nested = strings.Replace(geog, `UNIT["Degree",0.0174532925199433]`, `UNIT["`+u[0]+`",`+u[1]+`]`, 1)
+			s.nestedAngUnit = true
+		}
+		parts := []string{nested}
 		if unitFirst {
 			parts = append(parts, unit)
 		}
@@ -367,6 +377,9 @@ func runSpelling(c *core.Ctx) {
 	}
 	if s.nestedAuthority {
 		c.Count("wkt.authority_on_nested_objects")
+	}
+	if s.nestedAngUnit {
+		c.Count("wkt.nested_geogcs_with_another_angular_unit")
 	}
 	if s.otherUnit {
 		c.Count("unit.other_named_factor")
